@@ -360,6 +360,9 @@ func applyKnown(p *idl.Program, c *genCase) {
 			drop("value-type-in-container-const", "value_type_in_container")
 		}
 	}
+	if optOn(c.Options, "trim_idl") && vt.Known(prop, "trim-idl-unused-import") && len(p.Files) > 1 {
+		drop("trim-idl-unused-import", "trim_idl")
+	}
 	if optOn(c.Options, "apache_adaptor") && vt.Known(prop, "apache-adaptor-unused-import") && len(p.Files) > 1 {
 		drop("apache-adaptor-unused-import", "apache_adaptor")
 	}
@@ -639,6 +642,9 @@ func TestCompilesNames(t *testing.T) {
 		mc := modelCfg()
 		mc.NameStress = true
 		mc.CompatNames = optOn(opts, "compatible_names")
+		if mc.CompatNames && vt.Known(prop, "names-of-generated-helpers") {
+			mc.NoUnderscoreTwin = true
+		}
 		mc.NoNamespace = false // files sharing a package must not collide after name conversion:
 		mc.SharedNS = false    // with stress names every file gets its own package
 		mc.InheritedCaseCollision = true
